@@ -16,6 +16,12 @@ class Unknown(Exception):
     pass
 
 
+class Sym(str):
+    """an operand the assignment does not bind, carried symbolically (symbolic mode: env["__sym__"])."""
+    def __repr__(self):
+        return "<%s>" % str(self)
+
+
 class Rec(object):
     """a domain value with named fields (one element of a list the peer sent), hashable."""
 
@@ -218,13 +224,26 @@ def ev(e, env):
                 busy.add(e.id)
                 try:
                     return ev(d.value, env)
+                except Unknown:
+                    if env.get("__sym__"):
+                        return Sym(e.id)
+                    raise
                 finally:
                     busy.discard(e.id)
+        if env.get("__sym__"):
+            return Sym(e.id)
         raise Unknown(key)
     if isinstance(e, ast.Attribute):
-        base = ev(e.value, env)
+        try:
+            base = ev(e.value, env)
+        except Unknown:
+            if env.get("__sym__"):
+                return Sym(key)
+            raise
         if isinstance(base, Rec) and e.attr in base.fields:
             return base.fields[e.attr]
+        if isinstance(base, Sym):
+            return Sym("%s.%s" % (base, e.attr))
         raise Unknown(key)
     if isinstance(e, ast.Call) and isinstance(e.func, ast.Attribute) and not e.keywords and not e.args \
             and e.func.attr in ("items", "keys", "values"):
@@ -361,7 +380,8 @@ def check_cond(ctx, rule, fi, node_ast, expr, domain, spec, what, meaning, close
     return True
 
 
-def outcomes(g, fn_node, env, abort_only, memo=None, watch=None, reached=None, start=None):
+def outcomes(g, fn_node, env, abort_only, memo=None, watch=None, reached=None, start=None, visit=None,
+             track_all=False):
     """Which ways can one function end for one assignment of its inputs?  Walks the CFG from the entry,
     deciding every test whose operands the assignment binds (through `ev`, locals resolved to their
     reaching straight-line definition; a local assigned an evaluable expression on the walked path is
@@ -401,6 +421,11 @@ def outcomes(g, fn_node, env, abort_only, memo=None, watch=None, reached=None, s
         if key in seen or len(seen) > 20000:
             continue
         seen.add(key)
+        if visit is not None and n.kind in ("stmt", "return") and n.ast is not None:
+            ve = dict(env)
+            ve.update(dict(loc))
+            ve["__fn__"] = fn_node
+            visit(n, ve, taint)
         if n is g.exit or n.kind == "return":
             out.add(("pass", taint))
             continue
@@ -421,7 +446,7 @@ def outcomes(g, fn_node, env, abort_only, memo=None, watch=None, reached=None, s
             continue
         if n.kind == "stmt" and not (isinstance(n.ast, ast.Assign) and len(n.ast.targets) == 1
                                      and isinstance(n.ast.targets[0], ast.Name)
-                                     and n.ast.targets[0].id in relevant):
+                                     and (track_all or n.ast.targets[0].id in relevant)):
             st += [(m, loc, taint) for m, l in n.succ if not l.startswith("exc")]
             continue
         # whether a test can be decided depends on WHICH operands are bound, not on their values:
